@@ -424,7 +424,7 @@ impl Prop for P {
             },
             Tier::Thorough => Plan {
                 workers: 16,
-                cases_per_worker: 30000,
+                cases_per_worker: 90000,
                 timeout_s: 14400,
                 max_shrink_iters: 2000,
             },
